@@ -370,8 +370,9 @@ class TriangularLattice(SquareLattice):
             for s in self._sites:
                 s_r = self.nn_site(s, d='r')  # left is before right in the fermionic order
                 s_b = self.nn_site(s, d='b')  # top is before bottom in the fermionic order
-                bonds_d.append(Bond(s_b, s_r))
-            self._bonds_d = bonds_d
+                if s_r is not None and s_b is not None:
+                    bonds_d.append(Bond(s_b, s_r))
+            self._bonds_d = tuple(bonds_d)
         else:
             self._sites = (Site(0, 0), Site(0, 1), Site(0, 2))
             self._bonds_h = (Bond(Site(0, 0), Site(0, 1)), Bond(Site(0, 1), Site(0, 2)), Bond(Site(0, 2), Site(0, 3)))
